@@ -96,6 +96,28 @@ def main():
         except Exception as ex:
             errs.append(f"{path}: {ex}")
             worker[key] = []
+    # Drop impls: the shutdown flag is stored and the queue closed, unconditionally
+    drops = {}
+    for path, key in [("src/lzma2_reader_mt.rs", "lzma2Reader"), ("src/lzip/reader_mt.rs", "lzipReader"),
+                      ("src/enc/lzma2_writer_mt.rs", "lzma2Writer"), ("src/lzip/writer_mt.rs", "lzipWriter")]:
+        try:
+            s = strip_comments(open(os.path.join(REPO, path)).read())
+            m = re.search(r"impl\s*<[^{]*>\s*Drop\s+for\s+\w+[^{]*\{", s)
+            if not m:
+                raise KeyError("Drop impl")
+            body, _ = fn_body(s[m.end():], "drop")
+            evs = []
+            for pat, op in [(r"shutdown_flag\s*\.\s*store\(\s*true", "storeShutdown"),
+                            (r"shutdown_flag\s*\.\s*(?:swap|compare_exchange\w*|fetch_\w+|load)\(", "readShutdown"),
+                            (r"\b(?:if|match|while|for|loop)\b", "branch"), (r"\breturn\b", "ret"),
+                            (r"work_queue\s*\.\s*close\(\)", "closeQueue"), (r"\.join\(", "join"), (r"\?", "ret")]:
+                for mm in re.finditer(pat, body):
+                    evs.append((mm.start(), op))
+            evs.sort()
+            drops[key] = [op for _, op in evs]
+        except Exception as ex:
+            errs.append(f"{path}: drop: {ex}")
+            drops[key] = []
     def lst(ops, ns): return "[" + ", ".join(f"{ns}.{o}" for o in ops) + "]"
     text = "/- GENERATED by tools/extract_sync.py from /repo's sources on every run. Do not edit. -/\n"
     text += "import LzmaVerif.Model.SyncOps\nnamespace LzmaVerif.SyncShape\nopen LzmaVerif.SyncOps\n\n"
@@ -103,6 +125,8 @@ def main():
         text += f"def {fn}Ops : List QOp := {lst(out[fn], 'QOp')}\n"
     for k, v in worker.items():
         text += f"def {k}WorkerOps : List WOp := {lst(v, 'WOp')}\n"
+    for k, v in drops.items():
+        text += f"def {k}DropOps : List DOp := {lst(v, 'DOp')}\n"
     text += "\nend LzmaVerif.SyncShape\n"
     old = open(OUT).read() if os.path.exists(OUT) else None
     if old != text:
